@@ -132,7 +132,7 @@ def random_pcirc(rng, nmax=5, shared_names=True):
     defaults = {nm: Fraction(rng.randint(-4, 4), 4) for nm in pnames}
     for comp in circ["comps"]:
         n = len(comp["pins"])
-        comp["S0"] = gen.contractive(rng, n, target=0.4, kind=rng.choice(["reflectionless", "reflectionless", "general", "sparse"]))
+        comp["S0"] = gen.contractive(rng, n, target=0.4, kind=rng.choice(["reflectionless", "reflectionless", "general", "sparse", "symmetric", "symmetric"]))
         if rng.random() < 0.15:
             comp["S0"] = [[gen.CZ for _ in range(n)] for _ in range(n)]
         comp["S1"] = gen.contractive(rng, n, target=0.4, kind=rng.choice(["general", "symmetric"]))
